@@ -326,6 +326,86 @@ def run(ctx, rep):
         if not ok_b:
             rep.violation('R3.7b', vkey('R3.7b', FF.name, 'count-current-slot', ''), FF.loc(FF.span), why_b)
 
+    # ---------------- R3.7c the start of the run is taken only when the run is empty
+    if FF is not None and counter is not None:
+        from model import operands_of_rvalue
+        # the run start: the named variable(s) the final position is computed from (through unnamed temporaries only)
+        def named_sources(o, depth=0, seen=None):
+            seen = seen if seen is not None else set()
+            p = op_place(o)
+            if p is None or depth > 10 or p['l'] in seen:
+                return set()
+            seen.add(p['l'])
+            if FF.locals[p['l']].get('name') and not (1 <= p['l'] <= FF.argc):
+                asg_ = [bj for bj in FF.reachable() for s_ in FF.blocks[bj]['stmts']
+                        if s_['k'] == 'assign' and s_['lhs']['l'] == p['l'] and not s_['lhs']['p']]
+                asg_ += [bj for bj in FF.reachable() if FF.blocks[bj]['term']['k'] == 'call' and
+                         FF.blocks[bj]['term']['dest']['l'] == p['l'] and not FF.blocks[bj]['term']['dest']['p']]
+                if len(asg_) != 1 or asg_[0] in loop_blocks or (asg_[0] in (FF.reach_from(list(FF.loops().keys())) if FF.loops() else set()) and
+                                                                  any(s_['k'] == 'assign' and s_['lhs']['l'] == p['l'] and s_['rv']['k'] == 'use' and
+                                                                      op_place(s_['rv']['a']) is not None and FF.locals[op_place(s_['rv']['a'])['l']].get('name')
+                                                                      for s_ in FF.blocks[asg_[0]]['stmts'])):
+                    return {p['l']}  # a variable the loop maintains
+                # a named value computed once on the way out (`let pos = first_free * 32`): look through it
+            out = set()
+            for bj in FF.reachable():
+                for s_ in FF.blocks[bj]['stmts']:
+                    if s_['k'] == 'assign' and s_['lhs']['l'] == p['l'] and not s_['lhs']['p']:
+                        for o2 in operands_of_rvalue(s_['rv']):
+                            out |= named_sources(o2, depth + 1, seen)
+                tt_ = FF.blocks[bj]['term']
+                if tt_['k'] == 'call' and tt_['dest']['l'] == p['l'] and not tt_['dest']['p'] and \
+                        (tt_.get('callee') or '').endswith(('From::from', 'Into::into')):
+                    for o2 in tt_['args']:
+                        out |= named_sources(o2, depth + 1, seen)
+            return out
+
+        loop_blocks = set()
+        for body_ in FF.loops().values():
+            loop_blocks |= set(body_)
+        starts = set()
+        for b_, t_ in FF.calls():
+            if (t_.get('callee') or '').endswith('io::Seek::seek') and len(t_['args']) > 1 and b_ not in loop_blocks | set():
+                starts |= named_sources(t_['args'][1])
+        for b_, t_ in FF.calls():
+            if (t_.get('callee') or '').endswith('io::Seek::seek') and len(t_['args']) > 1:
+                srcs_ = named_sources(t_['args'][1])
+                # a seek inside the loop that ends the search (it is followed by a return without another iteration)
+                starts |= {x for x in srcs_ if x != counter}
+        starts.discard(counter)
+        # tests `counter == 0`
+        zero_edges = set()
+        for bi in FF.reachable():
+            t = FF.blocks[bi]['term']
+            if t['k'] != 'switch':
+                continue
+            src = switch_source(FF, bi)
+            if src and src['kind'] == 'binop' and src['op'] in ('Eq', 'Ne'):
+                ca, cb = op_const(src['a']), op_const(src['b'])
+                other = src['a'] if cb is not None else src['b']
+                cz = cb if cb is not None else ca
+                if cz is not None and cz.get('val') == 0 and ('local', counter) in d.of_operand(other) | {('local', (op_place(other) or {}).get('l'))}:
+                    zero_edges |= {(bi, x) for x in (nonzero_targets(t) if src['op'] == 'Eq' else zero_targets(t))}
+        bad_c = None
+        n_assign = 0
+        in_or_after = FF.reach_from(list(FF.loops().keys())) if FF.loops() else set()
+        for S in sorted(starts):
+            for bi in sorted(in_or_after):
+                for s_ in FF.blocks[bi]['stmts']:
+                    if s_['k'] == 'assign' and not s_['lhs']['p'] and s_['lhs']['l'] == S:
+                        n_assign += 1
+                        if not (zero_edges and edge_dominates(FF, zero_edges, bi)) and bi not in resets:
+                            bad_c = (S, s_)
+        if starts and n_assign:
+            rep.oblige('R3.7c', FF.name, ok=bad_c is None, nontrivial=True,
+                       sample={'fn': FF.name, 'run_start': [FF.locals[x].get('name') for x in sorted(starts)], 'assignments_in_loop': n_assign})
+            if bad_c is not None:
+                rep.violation('R3.7c', vkey('R3.7c', FF.name, 'run-start', ''), FF.loc(bad_c[1]['span']),
+                              'the free-slot search moves the start of the run (`%s`) although the run is not empty (no `%s == 0` test '
+                              'on the way): deleted slots in front of the current one are dropped from the run, so a hole that fits is '
+                              'reported as no space - or the entry set is written over the slots that follow' %
+                              (FF.locals[bad_c[0]].get('name'), FF.locals[counter].get('name')))
+
     # ---------------- R3.10 a new cluster is terminated before it is linked into a chain
     TA = facts.fns.get('fatfs::table::alloc_cluster')
     if TA is None:
@@ -504,3 +584,68 @@ _run_r3 = run
 def run(ctx, rep):
     _run_r3(ctx, rep)
     run_blind_link(ctx, rep)
+
+
+# ---------------------------------------------------------------------------------------------
+# R3.13  the first cluster of a file is recorded twice - in the handle (`File.first_cluster`) and in the directory entry the
+#        handle writes back (`DirEntryEditor::set_first_cluster`): a function that stores one stores the other, with the same
+#        kind of value (none / some cluster)
+
+def run_first_cluster_pair(ctx, rep):
+    from analyses import place_prefix_type
+    facts = ctx.facts
+    n = 0
+    for fn in facts.fns.values():
+        if fn.crate != 'fatfs':
+            continue
+        stores = []
+        for bi in sorted(fn.reachable()):
+            for s in fn.blocks[bi]['stmts']:
+                if s['k'] != 'assign' or not s['lhs']['p'] or s['lhs']['p'][-1].get('n') != 'first_cluster':
+                    continue
+                owner = place_prefix_type(fn, s['lhs'], len(s['lhs']['p']) - 1)
+                if not owner or not (owner.get('path') or '').endswith('file::File'):
+                    continue
+                kind = None
+                rv = s['rv']
+                defs_ = None
+                if rv['k'] == 'agg':
+                    kind = 'none' if rv.get('variant') == 'None' else 'some'
+                elif rv['k'] == 'use' and op_place(rv['a']) is not None and not op_place(rv['a'])['p']:
+                    l0 = op_place(rv['a'])['l']
+                    for b2 in fn.reachable():
+                        for s2 in fn.blocks[b2]['stmts']:
+                            if s2['k'] == 'assign' and not s2['lhs']['p'] and s2['lhs']['l'] == l0 and s2['rv']['k'] == 'agg':
+                                kind = 'none' if s2['rv'].get('variant') == 'None' else 'some'
+                stores.append((bi, s, kind))
+        if not stores:
+            continue
+        ed = []
+        d = Deps(fn)
+        for b, t in fn.calls():
+            c = t.get('callee') or ''
+            if c.endswith('DirEntryEditor::set_first_cluster') and len(t['args']) > 1:
+                toks = d.of_operand(t['args'][1])
+                k = 'none' if any(tk[0] == 'ctor' and tk[1].endswith('Option::None') for tk in toks) and \
+                    not any(tk[0] == 'ctor' and tk[1].endswith('Option::Some') for tk in toks) and ('field', 'first_cluster') not in toks else 'some'
+                ed.append(k)
+            elif c.endswith('File::set_first_cluster'):
+                ed.append('some')
+        for bi, s, kind in stores:
+            n += 1
+            ok = kind is None or kind in ed or (kind == 'some' and 'some' in ed)
+            rep.oblige('R3.13', '%s|bb%d' % (fn.name, bi), ok=ok, nontrivial=True, sample={'fn': fn.name, 'at': fn.loc(s['span']), 'stores': kind, 'entry updates': ed})
+            if not ok:
+                rep.violation('R3.13', vkey('R3.13', fn.name, 'first-cluster-pair', kind or ''), fn.loc(s['span']),
+                              '%s changes the handle\'s first cluster (to %s) but not the first cluster of the directory entry the '
+                              'handle writes back: the entry keeps pointing at a cluster the handle has given up (it is freed, later '
+                              'reused by another file: two entries share one cluster)' % (fn.name, kind))
+    rep.counts['R3.13.sites'] = n
+
+
+_run_r3b = run
+
+
+def run(ctx, rep):
+    _run_r3b(ctx, rep)
+    run_first_cluster_pair(ctx, rep)
